@@ -20,3 +20,4 @@ impl<const N: usize> FInt<N> {
     }
 }
 } // verus!
+
